@@ -6,7 +6,9 @@ from typing import Dict, List, Optional
 
 from harness.lib.core import VERIF, Ctx, lean_lock, run_driver, shrink_ops
 from harness.extract import software as x_sw
+from harness.extract import software_recv as x_recv
 from harness.rigs import software as rig
+from harness.rigs import software_recv as wrig
 
 MANIFEST = {
     "text": "Lean 4 proof about an executable model of Service / Application / Software (lifecycle methods, request validators, "
@@ -14,26 +16,47 @@ MANIFEST = {
             "of an installed instance of the same name, uninstall, the registries incl. the class map, request routes, ticks and "
             "power events fanned out to every instance, get_open_ports, payload delivery, send): every operation moves a service or "
             "application only along the documented transitions; a lifecycle request succeeds exactly in its documented source "
-            "states with the node ON and changes nothing otherwise; restart completes at the (d+1)-th and install at the max(1,d)-th "
-            "tick delivered to the instance — stated both per instance and as ONE theorem over Node.run (refinement along any "
-            "operation sequence, ticks delivered only by apply_timestep while the node is ON or by a direct call, nothing else "
-            "touching the countdown); apply_timestep never raises on reachable states; an open port always has a RUNNING owner; a "
-            "payload gets past the running-guard, and send() hands a payload on, only for RUNNING software on an ON node (full: "
-            "every shipped receive() has the guard); the registries agree after EVERY install/uninstall sequence (full: no freshness "
-            "hypothesis) and installs/uninstalls never raise. Tie: guard tables, validators, countdown idioms, enum values, defaults, "
-            "the shipped-class table (every receive() guarded), the install guard / eviction / class-map writes / uninstall "
-            "clean-ups, the docs masking table regenerated from the source (Gen/Software.lean) with obligations C13_gen_*; "
-            "differential rig R-svc on real Computer, Server, Router, Switch and Firewall nodes over every shipped service and "
-            "application class.",
-    "note": "C13-specific: payload *processing* of each class is not modelled (only routing and the running-guard); class-specific "
-            "internals that call lifecycle methods themselves (C2Beacon closing itself on time-out, `execute` requests) are exercised "
-            "only as far as the generic requests reach; DatabaseService's nested FTPClient install is driven as two operations; "
-            "connection bookkeeping (add_connection / OVERWHELMED) is not modelled; frames are modelled for HostNode only.",
-    "technique": "Lean 4 theorems over executable lifecycle and registry models; models tied by regenerated tables and a differential rig",
+            "states with the node ON and a refused request — service OR application — leaves the whole node unchanged (on every "
+            "reachable node); restart completes at the (d+1)-th and install at the max(1,d)-th tick delivered to the instance — "
+            "stated per instance and, for services, as ONE theorem over Node.run; apply_timestep never raises on reachable states; "
+            "the registries agree after EVERY install/uninstall sequence and installs/uninstalls never raise. "
+            "RECEIVE PATH (round 3): get_open_ports, check_port_is_open, receive_payload_from_session_manager and the destination "
+            "port chosen by SessionManager.receive_frame are TRANSLATED from the source into Lean definitions on every run and "
+            "proved equal, for all arguments, to the model's functions; proved for every registry state and every payload: "
+            "get_open_ports lists a port only for RUNNING software, check_port_is_open is true exactly when RUNNING software with "
+            "that port and protocol is installed, a delivery changes the data of, and lets a payload be sent by, only software that "
+            "is RUNNING on an ON node (every other receive() answers False, changes nothing, sends nothing, leaves the shared "
+            "payload object alone) — also through HostNode.receive_frame, through Router.check_send_frame_to_session_manager "
+            "(routers, firewalls) and along any exchange between two nodes over an ideal transport. "
+            "PAYLOAD PROCESSING of DNSServer / DNSClient / NTPServer / NTPClient is modelled and proved: a DNS request is answered "
+            "with exactly the registered address or none, a reply is never answered and every exchange terminates within a proved "
+            "number of steps (no endless exchange between two servers), the client caches "
+            "exactly what was answered; a lookup and an NTP time request end to end between two nodes succeed exactly when the "
+            "server and the client are RUNNING on ON nodes with the frames accepted, and otherwise change nothing. "
+            "CONNECTION BOOKKEEPING (add_connection / terminate_connection): health becomes OVERWHELMED exactly when a connection is "
+            "requested at max_sessions; the table never exceeds max_sessions. "
+            "Tie: guard tables, validators, countdown idioms, enum values, defaults, the shipped-class table (every receive() "
+            "guarded), install guard / eviction / class-map writes / uninstall clean-ups, the docs masking table, the translated "
+            "functions and the normalised bodies of the class methods the payload model follows (Gen/Software.lean, "
+            "Gen/SoftwareRecv.lean, obligations C13_gen_*); differential rigs: R-svc on real Computer, Server, Router, Switch and "
+            "Firewall nodes over every shipped class; R-recv on two real hosts joined by a real link (real receive of the four "
+            "modelled classes, real NIC/ARP/HostNode/SessionManager/SoftwareManager transport); R-conn on real instances.",
+    "note": "C13-specific: payload processing is modelled for DNS and NTP client/server only — web browser / web server, FTP client / "
+            "server, database, terminal, C2, the bots are followed only as far as routing and the running-guard; two-node exchanges are "
+            "modelled over an IDEAL transport (both nodes ON, peer's frame filter accepts; ARP, links, NIC state, ACLs are C08/C12/C18's "
+            "subject) and the rig uses instant power transitions there; the exchange started by an NTP client inside "
+            "Node.apply_timestep is modelled at its place in the per-service loop only while no power countdown is pending; "
+            "termination of the model's transport is proved for nodes with at most 61 installed programs (fuel 4096); "
+            "class-specific `execute`/`configure` requests, C2Beacon closing itself, DatabaseService's nested FTPClient install, "
+            "install timing as a single run-level theorem (services only) are not covered; router/firewall frame paths only as far "
+            "as the hand-over test to the session manager.",
+    "technique": "Lean 4 theorems over executable lifecycle, registry, receive-path and payload models; models tied by regenerated "
+                 "tables, by source-to-Lean translation of the software manager's functions and by three differential rigs",
     "design_ref": "5/C13",
 }
-MODULES = ["PrimaiteModel.Props.C13", "PrimaiteModel.Lemmas.RegistriesRep"]
+MODULES = ["PrimaiteModel.Props.C13", "PrimaiteModel.Lemmas.RegistriesRep", "PrimaiteModel.Props.C13Recv"]
 EXE = "drv_c13"
+EXE_W = "drv_c13recv"   # two nodes with class data and a transport (receive path, DNS / NTP payload processing)
 
 
 # ------------------------------------------------------------------------------------------------------------ helpers
@@ -89,6 +112,8 @@ def _check_case(ctx: Ctx, name: str, case: dict, res: dict, model: List[str], gu
             ctx.count("install:" + ("configured" if q.split()[6] == "1" else "bare"))
         if w in ("sapi", "aapi") and q.split()[2] in ("tick", "send"):
             ctx.count(f"direct:{q.split()[2]}:{m}")
+        if w == "rframe":
+            ctx.count(f"rframe:to-router={q.split()[-1]}:{m}")
         if w in ("sreq", "areq"):
             ctx.count(f"req:{q.split()[2]}:{m}")
         elif m.startswith("recv"):
@@ -140,12 +165,95 @@ def _check_case(ctx: Ctx, name: str, case: dict, res: dict, model: List[str], gu
     return False
 
 
+def _check_world_case(ctx: Ctx, name: str, case: dict, res: dict, model: List[str], guards: Dict[str, bool]) -> bool:
+    ctx.cov["traces_validated_against_impl"] += 1
+    j = _diff(res, model)
+    answers = [(q, m) for q, m in zip(res["lines"], model) if not q.endswith("dump")]
+    traffic = [m for _, m in answers if "|" in m]
+    ctx.case({"world": [q for q, _ in answers]}, bool(traffic))
+    ctx.count("wfocus:" + case.get("focus", "?"))
+    for q, m in answers:
+        w = q.split()
+        key = w[1] if w[0] in ("A", "B") else w[0]
+        ctx.count("wop:" + key)
+        if m == "bad-op":
+            raise RuntimeError(f"driver rejected line {q!r}")
+        if "!overflow" in m or "!tick-mismatch" in m:
+            ctx.count("wmodel:" + ("overflow" if "!overflow" in m else "tick-mismatch"))
+        if key in ("lookup", "cache"):
+            ctx.count(f"w:{key}:{m.split('|')[0].strip()}")
+        if key == "inject":
+            ctx.count("w:inject:" + m.split()[0])
+        if key == "dnslookup":
+            ctx.count("w:dnslookup:" + ("none" if m == "-" else "address"))
+        if "|" in m:
+            for r in m.split("|")[1].split():
+                if r.startswith("!"):
+                    continue
+                _, h, ret = r.split(":")
+                ctx.count("wrecv:" + ("handled" if h == "1" else "not-running") + ":" + {"t": "True", "f": "False", "n": "None", "-": "unmodelled-class"}.get(ret, ret))
+            ctx.count("wcascade:" + str(min(len([r for r in m.split("|")[1].split() if not r.startswith("!")]), 5)))
+    seen = set()
+    for (i, kind, detail, extra) in res["oracle"]:
+        sig = {"kind": "not-running-software-acted", "cls": extra, "via": "world"} if kind == "payload-handled-while-not-running" \
+            else {"kind": kind, "via": "world"}
+        key = json.dumps(sig, sort_keys=True)
+        if key in seen:
+            continue
+        seen.add(key)
+        ctx.count("oracle:" + kind)
+        ctx.violation(sig, f"{kind} after op {i} of {name}: {detail}", {"world_case": case, "from": name, "op_index": i, "oracle": kind})
+    if j < 0:
+        return True
+
+    def fails(ops, case=case):
+        c = dict(case, ops=ops)
+        try:
+            r2 = wrig.run_world_case(c, guards)
+            return _diff(r2, run_driver(EXE_W, r2["lines"])) >= 0
+        except Exception:  # noqa
+            return False
+    small = dict(case, ops=shrink_ops(case["ops"], fails, budget=80))
+    res2 = wrig.run_world_case(small, guards)
+    model2 = run_driver(EXE_W, res2["lines"])
+    j2 = _diff(res2, model2)
+    if j2 < 0:
+        small, res2, model2, j2 = case, res, model, j
+    line = res2["lines"][j2] if j2 < len(res2["lines"]) else "?"
+    w = line.split()
+    dumpline = line.endswith("dump")
+    opw = (w[1] if w and w[0] in ("A", "B") and len(w) > 1 else (w[0] if w else "?"))
+    if dumpline:
+        prev = next((l for l in reversed(res2["lines"][:j2]) if not l.endswith("dump")), "?").split()
+        opw = prev[1] if prev and prev[0] in ("A", "B") and len(prev) > 1 else (prev[0] if prev else "?")
+    impl_ans = res2["impl"][j2] if j2 < len(res2["impl"]) else None
+    sig = {"kind": "model-vs-impl", "where": ("world-state:" + w[1]) if dumpline else "world-answer", "op": opw}
+    if isinstance(impl_ans, str) and impl_ans.startswith("raised"):
+        sig["raised"] = impl_ans.split(":", 1)[-1]
+    ctx.violation(sig, f"two-node world differs from the proved model at line {j2} ({line!r}): impl={impl_ans!r} "
+                       f"model={model2[j2] if j2 < len(model2) else None!r}",
+                  {"world_case": small, "lines": [l for l in res2["lines"] if not l.endswith("dump")], "first_diff_line": line,
+                   "impl": impl_ans, "model": model2[j2] if j2 < len(model2) else None, "from": name})
+    return False
+
+
 def replay(rec: dict) -> bool:
     r = rec["replay"]
     with lean_lock():
         from harness.lib.core import lake_build
-        lake_build([EXE])
+        lake_build([EXE, EXE_W])
     guards = _guards()
+    if "conn_case" in r:
+        res = wrig.run_conn_case(r["conn_case"])
+        if r.get("oracle"):
+            return not res["oracle"]
+        return run_driver(EXE_W, res["lines"]) == res["impl"]
+    if "world_case" in r:
+        res = wrig.run_world_case(r["world_case"], guards)
+        model = run_driver(EXE_W, res["lines"])
+        if r.get("oracle"):
+            return not any(k == r["oracle"] for (_, k, _, _) in res["oracle"])
+        return _diff(res, model) < 0
     if "probe" in r:
         p = rig.guard_probe(r["probe"])
         return not _probe_handles_when_not_running(p)
@@ -165,13 +273,20 @@ def _probe_handles_when_not_running(p: dict) -> List[str]:
 def run(ctx: Ctx):
     with lean_lock():
         ctx.extract("Software", x_sw.emit)
-        ctx.prove(MODULES, exes=[EXE], clean=False, leanchecker=ctx.thorough)
+        ctx.extract("SoftwareRecv", x_recv.emit)
+        ctx.prove(MODULES, exes=[EXE, EXE_W], clean=False, leanchecker=ctx.thorough)
     guards = _guards()
     ctx.cov["rule"] = ("cases = (node power and durations, operation sequence over install/uninstall (API and request) of every shipped "
                        "class, the 10 service / 4 application requests, direct method calls, duration writes, ticks, power API and "
                        "requests, payload deliveries and frames); after every operation the answer and the whole registry/lifecycle "
                        "state are diffed against the Lean driver; a case is non-trivial when some answer is a refusal, a raise, an "
-                       "ignored frame or a delivery; distinct by canonical JSON of the model lines")
+                       "ignored frame or a delivery; distinct by canonical JSON of the model lines.  R-recv cases = (two real hosts on a link; "
+                       "installs of DNS/NTP servers and of listeners, lifecycle requests and power events on either node, dns_register / "
+                       "add_domain_to_cache / dns_lookup / check_domain_exists / request_time / Node.apply_timestep, client configuration, "
+                       "clock changes, injected frames with DNS/NTP requests and replies, junk and port-scan payloads, open-port queries); "
+                       "after every operation the answer, every receive() call it caused on both nodes (object, may-act, return value) in "
+                       "call order, both state lines and both class-data lines are diffed; non-trivial = some receive() call was caused.  "
+                       "R-conn cases = (class, max_sessions 0..3, starting health, add/terminate sequence); non-trivial = OVERWHELMED reached")
 
     # -- Gen class table vs live classes
     tbl = {r["cls"]: r for r in x_sw.class_table()}
@@ -214,8 +329,13 @@ def run(ctx: Ctx):
 
     # -- traces: corpus first, then bounded-exhaustive lifecycle words, then seeded random
     cases = []
+    world_cases = []
     for f in sorted((VERIF / "corpus" / "C13").glob("*.json")):
-        cases.append(("corpus:" + f.name, json.loads(f.read_text())["case"]))
+        rec = json.loads(f.read_text())
+        if rec.get("world"):
+            world_cases.append(("corpus:" + f.name, rec["case"]))
+        else:
+            cases.append(("corpus:" + f.name, rec["case"]))
     # bounded-exhaustive: every word of the given length over {7 lifecycle requests, tick, shutdown, startup}
     if not ctx.thorough:
         plan = [("dns-client", 3, [(0, 0), (1, 2)], "computer"), ("terminal", 2, [(1, 1)], "router"), ("icmp", 2, [(0, 2)], "firewall")]
@@ -251,3 +371,60 @@ def run(ctx: Ctx):
                     ctx.sample({"case": name, "node": case["node"], "lines": [l for l in res["lines"] if l != "dump"][10:18],
                                 "answers": [m for q, m in zip(res["lines"], model) if q != "dump"][10:18]}, cap=3)
     ctx.oblige("rig:R-svc agrees on every trace", "correspondence", agree == len(cases), f"{len(cases) - agree} of {len(cases)} traces disagree")
+
+    # -- R-recv: two real hosts on a link vs the two-node model (receive path, DNS / NTP payload processing, transport)
+    wrng = ctx.rng.fork("world")
+    for k in range(ctx.scale(300, 6000)):
+        world_cases.append((f"wgen:{k}", wrig.gen_world_case(wrng, max_ops=ctx.scale(28, 45))))
+    wagree = 0
+    for c0 in range(0, len(world_cases), 1500):
+        chunk = world_cases[c0:c0 + 1500]
+        results, lines_all, bounds = [], [], []
+        for name, case in chunk:
+            res = wrig.run_world_case(case, guards)
+            bounds.append((len(lines_all), len(res["lines"])))
+            lines_all += res["lines"] + ["reset"]
+            results.append(res)
+        model_all = run_driver(EXE_W, lines_all, timeout=3000)
+        for (name, case), res, (st, ln) in zip(chunk, results, bounds):
+            if _check_world_case(ctx, name, case, res, model_all[st:st + ln], guards):
+                wagree += 1
+                if name.startswith("wgen:"):
+                    keep = [(q, m) for q, m in zip(res["lines"], model_all[st:st + ln]) if not q.endswith("dump") and "|" in m]
+                    ctx.sample({"case": name, "focus": case.get("focus"), "traffic": [f"{q} => {m}" for q, m in keep[:4]]}, cap=6)
+    ctx.oblige("rig:R-recv (two hosts, real receive of DNS/NTP classes, real transport) agrees on every trace", "correspondence",
+               wagree == len(world_cases), f"{len(world_cases) - wagree} of {len(world_cases)} traces disagree")
+    ctx.oblige("model:R-recv the model's transport never ran out of fuel and its interleaved tick equals Node.step tick", "correspondence",
+               ctx.hist.get("wmodel:overflow", 0) == 0 and ctx.hist.get("wmodel:tick-mismatch", 0) == 0,
+               f"overflow={ctx.hist.get('wmodel:overflow', 0)} tick-mismatch={ctx.hist.get('wmodel:tick-mismatch', 0)}")
+
+    # -- R-conn: IOSoftware.add_connection / terminate_connection on real instances with a small max_sessions vs `Conn`
+    crng = ctx.rng.fork("conn")
+    conn_cases = [wrig.gen_conn_case(crng) for _ in range(ctx.scale(80, 2000))]
+    cres = [wrig.run_conn_case(c) for c in conn_cases]
+    lines_all = []
+    for r in cres:
+        lines_all += r["lines"] + ["reset"]
+    model_all = run_driver(EXE_W, lines_all, timeout=3000)
+    pos, cagree = 0, 0
+    for c, r in zip(conn_cases, cres):
+        model = model_all[pos:pos + len(r["lines"])]
+        pos += len(r["lines"]) + 1
+        ctx.cov["traces_validated_against_impl"] += 1
+        ctx.case({"conn": c}, any("OVERWHELMED" in m for m in model))
+        ctx.count("conn:type:" + c["type"])
+        ctx.count("conn:max:" + str(c["max"]))
+        for q, m in zip(r["lines"][1:], model[1:]):
+            ctx.count(f"conn:{q.split()[1]}:{m.split()[1]}:{m.split()[-1]}")
+        for (i, kind, detail) in r["oracle"][:1]:
+            ctx.violation({"kind": kind, "via": "conn"}, f"{kind} after op {i}: {detail}", {"conn_case": c, "oracle": kind})
+        if model == r["impl"]:
+            cagree += 1
+        else:
+            j = next((k for k, (a, b) in enumerate(zip(r["impl"], model)) if a != b), min(len(model), len(r["impl"])))
+            ctx.violation({"kind": "model-vs-impl", "where": "connections", "op": r["lines"][j].split()[1] if j < len(r["lines"]) else "?"},
+                          f"connection bookkeeping differs from the proved model at {r['lines'][j] if j < len(r['lines']) else '?'!r}: "
+                          f"impl={r['impl'][j] if j < len(r['impl']) else None!r} model={model[j] if j < len(model) else None!r}",
+                          {"conn_case": dict(c, ops=c["ops"][:j]), "from": "conn"})
+    ctx.oblige("rig:R-conn (add_connection / terminate_connection) agrees on every trace", "correspondence", cagree == len(conn_cases),
+               f"{len(conn_cases) - cagree} of {len(conn_cases)} traces disagree")
